@@ -243,6 +243,7 @@ class World(Shim):
         self.kind = kind
         self.pdir = os.path.join(root, str(PID))
         self.vanish = None
+        self.half = False            # V': only the entries below /proc/<pid> go, the directory itself stays
         self.ovanish = {}            # other pid -> access index from which it is gone
         self.ogone = set()
         self.deny = {}
@@ -273,7 +274,15 @@ class World(Shim):
             self.gone = True
             self.busy = True
             try:
-                shutil.rmtree(self.pdir, ignore_errors=True)
+                if self.half:
+                    for n in os.listdir(self.pdir):
+                        q = os.path.join(self.pdir, n)
+                        if os.path.isdir(q) and not os.path.islink(q):
+                            shutil.rmtree(q, ignore_errors=True)
+                        else:
+                            os.unlink(q)
+                else:
+                    shutil.rmtree(self.pdir, ignore_errors=True)
             finally:
                 self.busy = False
 
@@ -288,7 +297,7 @@ class World(Shim):
                     shutil.rmtree(os.path.join(self.root, str(pid)), ignore_errors=True)
                 finally:
                     self.busy = False
-        if self.gone and self.is_self(p):
+        if self.gone and self.is_self(p) and not (self.half and p == self.pdir):
             return _oserr(errno.ESRCH if kind in ("read", "sys") else errno.ENOENT, p)
         first = self.rel(p).split("/")[0]
         if first.isdigit() and int(first) in self.ogone:
@@ -528,7 +537,7 @@ def reset_psutil(psutil, root):
     psutil._psposix.get_terminal_map.cache_clear()
 
 
-def run_case(work, kind, mname, vanish=None, deny=None, sticky=False, ovanish=None):
+def run_case(work, kind, mname, vanish=None, deny=None, sticky=False, ovanish=None, half=False):
     """Build the world, create the Process object (no faults), then run the method under the fault
     schedule.  Returns {"out": outcome, "log": labels, "gone": bool, "after": {method: outcome}}."""
     import psutil
@@ -544,6 +553,7 @@ def run_case(work, kind, mname, vanish=None, deny=None, sticky=False, ovanish=No
         w.reset()
         w.fault = w._fault
         w.vanish = vanish
+        w.half = bool(half)
         w.deny = {int(k): v for k, v in (deny or {}).items()}
         w.ovanish = {int(k): int(v) for k, v in (ovanish or {}).items()}
         out = call_method(p, mname)
